@@ -107,6 +107,9 @@ inductive Out where
 /-- the questions the FSM asks the layers that are not modelled here -/
 inductive Query where
   | starterBusy | stopperBusy | conflicting | lostProcs
+  /-- `accept_master` picks `next(iter(masters))` in a Python set: which declared Master is taken is left open, the
+      implementation's choice is adopted (relational correspondence) -/
+  | acceptMaster
   deriving DecidableEq, Repr
 
 inductive Err where
@@ -124,7 +127,7 @@ structure St where
   lost : List Nat := []        -- lost_instances of the current state object
   lostProcs : Bool := false    -- `lost_processes` of the current state object is not empty
   out : List Out := []
-  oracle : List (Query × Bool) := []   -- answers for this operation, in the order asked
+  oracle : List (Query × Nat) := []    -- answers for this operation, in the order asked (Booleans as 0 / 1)
   oracleBad : Nat := 0                 -- questions asked that the stream did not answer (kind mismatch / exhausted)
   deriving Repr, Inhabited
 
@@ -135,19 +138,24 @@ def ids (c : Cfg) : List Nat := List.range c.n
 def emit (o : Out) : M Unit := modify fun s => { s with out := s.out ++ [o] }
 
 /-- consume the next oracle answer (a missing or differently-typed answer is counted and read as `false`) -/
-def ask (q : Query) : M Bool := do
+def askNat (q : Query) : M (Option Nat) := do
   let s ← get
   match s.oracle with
   | (q', a) :: _ =>
     if q' = q then
       modify fun s => { s with oracle := s.oracle.tail }
-      return a
+      return some a
     else
       modify fun s => { s with oracleBad := s.oracleBad + 1 }
-      return false
+      return none
   | [] =>
     modify fun s => { s with oracleBad := s.oracleBad + 1 }
-    return false
+    return none
+
+def ask (q : Query) : M Bool := do
+  match ← askNat q with
+  | some a => return a != 0
+  | none => return false
 
 def getPeer (j : Nat) : M Peer := do return (← get).peers.getD j {}
 def setPeer (j : Nat) (p : Peer) : M Unit := modify fun s => { s with peers := s.peers.set j p }
@@ -267,21 +275,26 @@ def evaluateStability (c : Cfg) : M Unit := do
 
 def isStable : M Bool := do return !(← get).stable.isEmpty
 
-/-- get_master_identifiers, as the list of declared Masters of the instances seen RUNNING -/
-def masterIds (c : Cfg) : M (List (Option Nat)) := do
-  let mut res := []
-  for j in ids c do
-    if ← isRunningLocal c j then
-      res := res ++ [(← getModes j).master]
-  return res
+/-- the instances the local instance sees RUNNING (`local_state_modes.running_identifiers()`) -/
+def runningIds (c : Cfg) (modes : List Modes) : List Nat :=
+  (ids c).filter (fun j => (modes.getD c.me {}).inst.getD j .stopped = .running)
 
-/-- check_master -/
-def checkMaster (c : Cfg) : M Bool := do
-  let ms ← masterIds c
-  if ms.contains none then return false
-  match ms with
-  | [] => return true
-  | h :: t => return t.all (· == h)
+/-- `get_master_identifiers`: the Masters declared by the instances seen RUNNING (own record for the local one, stored copy
+    of the last publication for the others) -/
+def masterIdsP (c : Cfg) (modes : List Modes) : List (Option Nat) :=
+  (runningIds c modes).map (fun j => (modes.getD j {}).master)
+
+def masterIds (c : Cfg) : M (List (Option Nat)) := do return masterIdsP c (← get).modes
+
+/-- `check_master`: no RUNNING instance without Master, and a single Master declared -/
+def checkMasterP (c : Cfg) (modes : List Modes) : Bool :=
+  let ms := masterIdsP c modes
+  if ms.contains none then false
+  else match ms with
+    | [] => true
+    | h :: t => t.all (· == h)
+
+def checkMaster (c : Cfg) : M Bool := do return checkMasterP c (← get).modes
 
 def minByRank (c : Cfg) : List Nat → Option Nat
   | [] => none
@@ -289,16 +302,22 @@ def minByRank (c : Cfg) : List Nat → Option Nat
     | none => some h
     | some m => if c.nickRank.getD m 0 < c.nickRank.getD h 0 then some m else some h
 
+/-- first priority of `select_master`: the Masters declared by the instances seen RUNNING if any, else those instances -/
+def allCandsP (c : Cfg) (modes : List Modes) : List Nat :=
+  if (((masterIdsP c modes).filterMap id).eraseDups).isEmpty then runningIds c modes
+  else ((masterIdsP c modes).filterMap id).eraseDups
+
+/-- second priority: the core instances among them, if any -/
+def candidatesP (c : Cfg) (modes : List Modes) : List Nat :=
+  if (c.core.filter (· ∈ allCandsP c modes)).isEmpty then allCandsP c modes
+  else c.core.filter (· ∈ allCandsP c modes)
+
+/-- `select_master` as a function: the candidate of lowest nick identifier -/
+def selectP (c : Cfg) (modes : List Modes) : Option Nat := minByRank c (candidatesP c modes)
+
 /-- select_master -/
 def selectMaster (c : Cfg) : M Unit := do
-  let ms ← masterIds c
-  let declared := (ms.filterMap id).eraseDups
-  let lm ← localModes c
-  let running := (ids c).filter (fun j => lm.inst.getD j .stopped = .running)
-  let all := if declared.isEmpty then running else declared
-  let coreC := c.core.filter (· ∈ all)
-  let cands := if coreC.isEmpty then all else coreC
-  match minByRank c cands with
+  match selectP c (← get).modes with
   | some m => setMaster c (some m)
   | none => pure ()      -- Python: min() of an empty sequence raises; unreachable while the local instance is RUNNING
 
@@ -387,11 +406,14 @@ def baseNext (c : Cfg) (f : SState) : M (Option SState) := do
 /-- `SynchronizationState._check_end_sync_user` -/
 def endSyncUser (c : Cfg) : M (Option Bool) := do
   if c.optUser then
-    -- accept_master: arbitrary choice among declared Masters (first one here)
+    -- accept_master: `next(iter(masters))` — the implementation's choice among the declared Masters is adopted
     let ms ← masterIds c
-    match (ms.filterMap id).head? with
-    | some m => setMaster c (some m)
-    | none => pure ()
+    let declared := ms.filterMap id
+    if !declared.isEmpty then
+      match ← askNat .acceptMaster with
+      | some m => if declared.contains m then setMaster c (some m) else
+                    modify fun s => { s with oracleBad := s.oracleBad + 1 }
+      | none => pure ()
     let lm ← localModes c
     match lm.master with
     | some m => return some (decide ((← getPeer m).state = .running))
@@ -622,7 +644,7 @@ def initSt (c : Cfg) : St :=
 /-- One operation at simulated time `now`.  When the handler raises, the pre-state is kept (the Python leaves whatever was
     written before the exception; the only raising points met, `InvalidTransition` in a setter called first and the
     missing-Master errors of restart/shutdown, write nothing before they raise). -/
-def stepOp (c : Cfg) (s : St) (now : Nat) (op : Op) (oracle : List (Query × Bool) := []) : St × Option Err :=
+def stepOp (c : Cfg) (s : St) (now : Nat) (op : Op) (oracle : List (Query × Nat) := []) : St × Option Err :=
   match (handle c op).run { s with now := now, out := [], oracle := oracle, oracleBad := 0 } with
   | .ok (_, s') => (s', none)
   | .error e => ({ s with now := now, out := [], oracle := oracle, oracleBad := 0 }, some e)
